@@ -47,6 +47,9 @@ type SignSpec struct {
 	// Wrap64 breaks the base64 text of DigestValue, SignatureValue and X509Certificate into
 	// 64-character lines, as most IdP implementations do.
 	Wrap64 bool `json:"wrap64,omitempty"`
+	// Indent (with Wrap64) also indents every line of those base64 texts with spaces, as a
+	// pretty-printing serialiser does. Go's base64 decoder skips line ends but not spaces.
+	Indent bool `json:"indent,omitempty"`
 }
 
 func (s SignSpec) Signed() bool { return s.Key != "" }
